@@ -552,6 +552,13 @@ func runOblig(o *Oblig, tier string) *ObligResult {
 	if err != nil {
 		res.Status = "error"
 		res.Error = err.Error()
+		// Does the tree itself (same package, same roots, no harness overlay) load? Then only the
+		// harness is out of date with the tree (a private helper it names was renamed, moved out of
+		// reach or changed its signature): the obligation is undecidable on this tree, not failed.
+		if _, err2 := symgo.Load(repoDir, pkgPathOf(o), o.Roots, nil, ""); err2 == nil {
+			res.Status = "skipped"
+			res.Error = "harness out of date with the tree (the tree itself builds): " + err.Error()
+		}
 		return res
 	}
 	res.LoadS = prog.LoadDur.Seconds()
@@ -1116,6 +1123,10 @@ func cmdRun(args []string) {
 			b, err := os.ReadFile(outp)
 			if err != nil || json.Unmarshal(b, &r) != nil {
 				r = ObligResult{ID: o.ID, Property: o.Property, Tier: tier, Status: "error", Error: "worker produced no result: " + lastLines(stderr.String(), 15)}
+				if strings.Contains(stderr.String(), "(harness out of date with the tree)") {
+					// a registry rename / rewrite no longer finds its anchor in the source
+					r.Status = "skipped"
+				}
 			}
 			results[i] = &r
 		}(i, o)
@@ -1133,6 +1144,8 @@ func cmdRun(args []string) {
 	var samples []interface{}
 	var assumptions []string
 	var perOb []interface{}
+	var skipped []string
+	nOK := 0
 	funcs := map[string]bool{}
 	stubs := map[string]int{}
 	knownMatched := map[string]int{}
@@ -1177,6 +1190,10 @@ func cmdRun(args []string) {
 		perOb = append(perOb, po)
 		switch r.Status {
 		case "ok":
+			nOK++
+		case "skipped":
+			skipped = append(skipped, r.ID+": "+r.Error)
+			lines = append(lines, fmt.Sprintf("SKIPPED property=%s obligation=%s %s", prop, r.ID, trunc(r.Error, 600)))
 		case "violation":
 			for i, v := range r.Violations {
 				if v.Known != "" {
@@ -1205,6 +1222,10 @@ func cmdRun(args []string) {
 			inconcl = append(inconcl, r.ID+": "+msg)
 			lines = append(lines, fmt.Sprintf("INCONCLUSIVE property=%s obligation=%s %s", prop, r.ID, trunc(msg, 600)))
 		}
+	}
+	if len(skipped) > 0 && exit == 0 && nOK == 0 {
+		// nothing of this property could be decided on this tree
+		exit = 2
 	}
 	for _, k := range known {
 		if k.Property != prop || k.Status != "known" {
@@ -1249,6 +1270,10 @@ func cmdRun(args []string) {
 	agg["per_obligation"] = perOb
 	agg["known_findings_matched"] = knownMatched
 	agg["inconclusive"] = inconcl
+	agg["skipped_harness_out_of_date"] = skipped
+	if len(skipped) > 0 {
+		assumptions = append(assumptions, fmt.Sprintf("%d obligation(s) were NOT decided on this tree because their harness no longer builds against it (the tree itself builds): %s", len(skipped), strings.Join(skipped, " | ")))
+	}
 	agg["exhaustive"] = false
 	agg["explanation"] = "states = symbolic paths completed (each decided by the SMT solver for all inputs on that path); transitions = branch/choice/concretisation decisions; obligations = assertions reached; discharged = assertions proved unsat-negation within the stated bounds"
 	if states == 0 {
@@ -1268,7 +1293,7 @@ func cmdRun(args []string) {
 	b, _ := json.MarshalIndent(ev, "", " ")
 	os.MkdirAll(filepath.Join(verifDir, "evidence"), 0o755)
 	os.WriteFile(filepath.Join(verifDir, "evidence", prop+".json"), b, 0o644)
-	fmt.Printf("%s tier=%s obligations=%d paths=%d asserts=%d discharged=%d queries=%d solver=%.1fs wall=%.1fs exit=%d\n", prop, tier, len(results), states, obligations, discharged, queries, solverS, time.Since(t0).Seconds(), exit)
+	fmt.Printf("%s tier=%s obligations=%d skipped=%d paths=%d asserts=%d discharged=%d queries=%d solver=%.1fs wall=%.1fs exit=%d\n", prop, tier, len(results), len(skipped), states, obligations, discharged, queries, solverS, time.Since(t0).Seconds(), exit)
 	os.Exit(exit)
 }
 
